@@ -367,6 +367,9 @@ func TestReplay(t *testing.T) {
 		if !oracle.IsCanon(src) {
 			continue
 		}
+		if _, _, err := oracle.Parse(src); err != nil {
+			continue // format.Source accepts fragments and empty files
+		}
 		h.Eval("CorpusSweep")
 		check("CorpusSweep")(t, Case{Srcs: []string{string(src)}, Pre: i % 2, From: files[i]})
 		h.NonTrivial("CorpusSweep", files[i])
